@@ -24,6 +24,17 @@ CLAIMED = {
             "DESIGN §5 C04"),
 }
 
+CLAIMED["C05"] = (
+    "TLA+ spec (StripTrim.tla: strip / trim-matches / whitespace loops refine the declarative reference) "
+    "model-checked by TLC; all explored (op,input,pattern) replayed into every pattern kind of string:: and "
+    "slice::bytes_*; recorded random calls validated against Trace_StripTrim.tla",
+    "Exhaustive within bounds: all inputs over {a,b} (<=7/<=8 bytes) x patterns (<=3/<=4) and multi-byte "
+    "strings, every ASCII byte 0..127 at each end and inside for whitespace trimming, compared with the "
+    "specification's reference on the real code; plus 20k-320k recorded calls validated by the trace spec.",
+    "Trusted: TLC, reference operators (cross-checked against std strip_*/trim_*_matches/trim_ascii*), harness "
+    "rendering. trim_matches with a pattern whose two trimming orders differ is not compared.",
+    "DESIGN §5 C05")
+
 NOT_YET = {}
 
 def main():
